@@ -622,6 +622,33 @@ def public_assoc(exp, tpath, memo):
     return out
 
 
+def assoc_docs(exp, tpath, memo):
+    """public_assoc with the documentation each function carries: a forwarded copy keeps the doc of its origin"""
+    if tpath in memo:
+        return memo[tpath]
+    t = exp["types"].get(tpath)
+    if t is None:
+        return []
+    memo[tpath] = []
+    used = set(d["name"] if d else "_vfunc_%d" % k for k, d in enumerate(t.get("slot_descs") or []))
+    out = []       # (emitted name, field, original name, doc lines)
+    for i, (fname, bpath) in enumerate(t.get("base_fields") or []):
+        cands = [(n, doc) for n, _, _, doc in assoc_docs(exp, bpath, memo)]
+        if i > 0:
+            bt = exp["types"].get(bpath) or {}
+            cands += [(d["name"], d["doc"]) for d in (bt.get("slot_descs") or []) if d and d["pub"]]
+        for g, doc in cands:
+            name = g if g not in used else "%s_%s" % (fname, g)
+            used.add(name)
+            out.append((name, fname, g, doc))
+    for d in t["impls"]:
+        if d["pub"]:
+            out.append((d["name"], None, d["name"], d["doc"]))
+        used.add(d["name"])
+    memo[tpath] = out
+    return out
+
+
 def hierarchy(exp, tpath, prefix=()):
     out = []
     t = exp["types"].get(tpath)
@@ -750,6 +777,7 @@ def mon_c17(res):
         if not cond:
             fails.append(dict(clause=clause, detail=detail))
 
+    docs_memo = {}
     for rel, m in (exp.get("modules") or {}).items():
         f = res.hfiles.get(rel + ".rs")
         if f is not None and f[0] == "file":
@@ -791,6 +819,14 @@ def mon_c17(res):
                 continue
             chk((m[2] == "pub") == d["pub"], "C17.method_vis", "%s::%s" % (tpath, d["name"]))
             chk(docs_of(m[1]) == d["doc"], "C17.method_doc", "%s::%s: %s vs %s" % (tpath, d["name"], docs_of(m[1]), d["doc"]))
+        # copies inherited from base types carry the documentation of the function they forward to
+        for name, field, orig, doc in assoc_docs(exp, tpath, docs_memo):
+            m = ms.get(name)
+            if field is None or m is None:
+                continue
+            body = " ".join(sx.show(x) for x in fn_parts(m)["body"])
+            if body.startswith("self . %s . %s (paren" % (field, orig)):
+                chk(docs_of(m[1]) == doc, "C17.inherited_doc", "%s::%s (forwarding %s.%s): %s vs %s" % (tpath, name, field, orig, docs_of(m[1]), doc))
         for special in ("vftable", "get"):
             if special in ms:
                 chk(not docs_of(ms[special][1]), "C17.stray_doc", "%s::%s" % (tpath, special))
